@@ -135,13 +135,21 @@ class Interp:
         if k == "p_ident":
             n = p["n"]
             if n[:1].isupper() and not p.get("sub"):
-                return isinstance(v, Variant) and v.last == n
+                if n == "None":
+                    return v is None or (isinstance(v, Variant) and v.last == "None")
+                if v is None:
+                    return False
+                if not isinstance(v, Variant):
+                    raise CannotEstablish("unit-variant pattern %s against %r" % (n, v))
+                return v.last == n
             if p.get("sub") and not self.bind(p["sub"], v, env):
                 return False
             env[n] = v
             return True
         if k == "p_path":
             last = p["p"].rsplit("::", 1)[-1]
+            if last == "None" and (v is None or isinstance(v, Variant)):
+                return v is None or v.last == "None"
             if p["p"] in self.consts:
                 return v == self.consts[p["p"]]
             from synq import int_value
